@@ -145,3 +145,72 @@ package bigbuff
 //@   at-call (*sync/atomic.Uint64).CompareAndSwap#0 locked : heldW(x.mutex)
 //@   at-call (*sync/atomic.Uint64).CompareAndSwap#1 locked : heldW(x.mutex)
 //@   loop 1 invariant sends : rangeint_iter < receivers && sent(x.C) == old(sent(x.C)) + u64(rangeint_iter) && heldW(x.mutex)
+
+// ---------------------------------------------------------------------------------------------------
+// C13 — Channel (channel.go). taken(c, i) is the i-th value this Channel took from its source (rigid
+// ghost history, defined at the single TryRecv site); k = number of values committed so far.
+
+//@ type Channel as c
+//@   guard mutex : buffer rollback k
+//@   frozen : valid source ctx cancel done rate
+//@   ghost k int
+//@   ghostfn taken(ref, int) any rigid
+//@   def total(c) = c.k + len(c.buffer)
+//@   def cursor(c) = c.k + len(c.buffer) - c.rollback
+//@   objinv wired : c.valid ==> c.done != nil && c.cancel != nil && c.ctx != nil && (!oncedone(c.close) ==> !closed(c.done))
+//@   inv mutex rb : 0 <= c.rollback && c.rollback <= len(c.buffer)
+//@   inv mutex kpos : c.k >= 0
+//@   inv mutex win : all(i, 0, len(c.buffer), c.buffer[i] == taken(c, c.k + i))
+
+//@ func (*Channel).Get
+//@   props C13 C12
+//@   action mutex
+//@   loop 0 invariant unset : value == nil
+//@   ensures step : err == nil ==> value == taken(c, old(cursor(c))) && cursor(c) == old(cursor(c)) + 1 && c.k == old(c.k)
+//@   ensures replay : err == nil && old(c.rollback) > 0 ==> c.rollback == old(c.rollback) - 1 && unchanged(c.buffer)
+//@   ensures take : err == nil && old(c.rollback) == 0 ==> len(c.buffer) == old(len(c.buffer)) + 1 && c.rollback == 0 && all(i, 0, old(len(c.buffer)), c.buffer[i] == old(c.buffer[i]))
+//@   ensures err_nop : err != nil ==> unchanged(c.buffer, c.rollback, c.k)
+//@   ensures err_value : err != nil ==> value == nil
+
+//@ func (*Channel).Get$1
+//@   props C13 C12
+//@   after-call (reflect.Value).TryRecv#0 assume history : ret1 ==> iface(ret0) == taken(c, c.k + len(c.buffer))
+//@   at-call (reflect.Value).TryRecv#0 open : lasterr(c.ctx) == nil && heldW(c.mutex) && c.rollback == 0
+
+//@ func (*Channel).Commit
+//@   props C13 C12
+//@   action mutex
+//@   update-at-release k : c.k := old(cursor(c)) if len(c.buffer) < old(len(c.buffer))
+//@   ensures closed [C12,C13] : ret == nil ==> lasterr(c.ctx) == nil
+//@   ensures nothing : old(cursor(c)) == old(c.k) ==> ret != nil
+//@   ensures err_nop : ret != nil ==> unchanged(c.buffer, c.rollback, c.k)
+//@   ensures ok : ret == nil ==> c.k == old(cursor(c)) && c.rollback == old(c.rollback) && total(c) == old(total(c)) && len(c.buffer) == old(c.rollback)
+//@   ensures kept : ret == nil ==> all(i, 0, len(c.buffer), c.buffer[i] == old(c.buffer[i + (len(c.buffer) - c.rollback)]))
+//@   loop 0 invariant idx : 0 <= i && i <= pending && pending == old(len(c.buffer) - c.rollback) && len(c.buffer) == old(len(c.buffer)) && c.rollback == old(c.rollback) && c.k == old(c.k)
+//@   loop 0 invariant keep : all(j, pending, len(c.buffer), c.buffer[j] == old(c.buffer[j]))
+
+//@ func (*Channel).Rollback
+//@   props C13
+//@   action mutex
+//@   ensures nothing : old(cursor(c)) == old(c.k) ==> ret != nil
+//@   ensures err_nop : ret != nil ==> unchanged(c.buffer, c.rollback, c.k)
+//@   ensures ok : ret == nil ==> c.rollback == len(c.buffer) && cursor(c) == c.k && unchanged(c.buffer, c.k)
+
+//@ func (*Channel).Buffer
+//@   props C13
+//@   action mutex
+//@   ensures copy : len(ret) == len(c.buffer) && all(i, 0, len(ret), ret[i] == c.buffer[i]) && (ret == nil) == (c.buffer == nil)
+//@   ensures frame : unchanged(c.buffer, c.rollback, c.k)
+
+//@ func (*Channel).Close
+//@   props C13 C12
+
+//@ func (*Channel).Close$1
+//@   props C13 C12
+//@   at-call builtin.close#0 ordered : heldW(c.mutex) && calls(c.cancel) >= 1
+//@   at-call dynamic#0 locked : heldW(c.mutex)
+
+//@ func NewChannel
+//@   props C13 C12
+//@   ensures wired : ret1 == nil ==> ret0 != nil && ret0.valid && ret0.done != nil && ret0.cancel != nil && ret0.ctx != nil && !closed(ret0.done) && !oncedone(ret0.close) && ret0.rollback == 0 && len(ret0.buffer) == 0 && ret0.rate > 0
+//@   ensures err : ret1 != nil ==> ret0 == nil
